@@ -91,9 +91,17 @@ func runConc(seed int64, nclients, nops int, size uint64, out string, shape stri
 		}
 		setup = append(setup, Op{Id: 400, Proc: "restart"})
 	}
+	if shape == "staledir" {
+		// a restart resets the allocator's scan position: the next directory made gets the lowest free number, which
+		// is the number of the directory removed just before
+		setup = append(setup, Op{Id: 400, Proc: "restart"})
+	}
 	for _, o := range setup {
 		r.Step(o)
 	}
+	startB := make(chan struct{})
+	var startOnce sync.Once
+	var aborted sync.Map
 	if shape == "coldcache" {
 		var rd int64
 		r.d.SlowRead = func(a uint64) {
@@ -132,6 +140,23 @@ func runConc(seed int64, nclients, nops int, size uint64, out string, shape stri
 			ct.txns[op] = append(ct.txns[op], fmt.Sprintf("%s0:%d", tag, arg))
 		}
 		ct.mu.Unlock()
+		if shape == "staledir" {
+			// a REMOVE that gave up its locks (abort) and is about to take them again in order (the next acquire of the
+			// same call): the other client now removes the directory, makes a new one (same number) and moves the
+			// child back in under the same name
+			g := goid()
+			if p, ok := curProc.Load(g); ok && p.(string) == "remove" {
+				if kind == 5 {
+					aborted.Store(g, true)
+				} else if _, was := aborted.Load(g); was && kind == 0 {
+					aborted.Delete(g)
+					startOnce.Do(func() {
+						close(startB)
+						time.Sleep(500 * time.Millisecond)
+					})
+				}
+			}
+		}
 		if kind == 5 {
 			time.Sleep(time.Duration(100+(atomic.AddInt64(&noise, 12345)>>9)%400) * time.Microsecond)
 		}
@@ -169,6 +194,24 @@ func runConc(seed int64, nclients, nops int, size uint64, out string, shape stri
 			}
 			// (files outside the big directory: a listing would wait for a stalled child's lock)
 			return Op{Id: id, Proc: "getattr", H: files[rg.Intn(len(files))]}
+		case "staledir": // a dead directory handle used by a call that is between giving up and re-taking its locks
+			i := id % 1000
+			switch id / 1000 {
+			case 0: // (waits for the REMOVE's abort, see the client loop)
+				seq := []Op{{Id: id, Proc: "rename", H: "@4", Name: "a", H2: "root", Name2: "t"}, {Id: id, Proc: "rename", H: "@4", Name: "b", H2: "root", Name2: "u"},
+					{Id: id, Proc: "rmdir", H: "root", Name: "d1"}, {Id: id, Proc: "mkdir", H: "root", Name: "d1"},
+					{Id: id, Proc: "rename", H: "root", Name: "t", H2: "@103", Name2: "a"}}
+				if i-100 < len(seq) && i >= 100 {
+					return seq[i-100]
+				}
+				return Op{Id: id, Proc: "getattr", H: "@2"}
+			case 1:
+				if i == 101 {
+					return Op{Id: id, Proc: "remove", H: "@4", Name: "a"}
+				}
+				return Op{Id: id, Proc: "lookup", H: "@4", Name: []string{"a", "b"}[i%2]}
+			}
+			return []Op{{Id: id, Proc: "lookup", H: "@4", Name: "b"}, {Id: id, Proc: "getattr", H: "@1"}, {Id: id, Proc: "lookup", H: "@5", Name: "a"}}[i%3]
 		case "relock": // removal / lookup of a child with a smaller number than its directory vs. re-binding of the name
 			i := id % 1000
 			switch id / 1000 % 3 {
@@ -264,6 +307,12 @@ func runConc(seed int64, nclients, nops int, size uint64, out string, shape stri
 			if shape == "coldcache" && c%2 == 0 {
 				n = nops * 40 // the listing clients are fast; they keep going while the others stall
 			}
+			if shape == "staledir" && c == 0 {
+				select {
+				case <-startB:
+				case <-time.After(800 * time.Millisecond):
+				}
+			}
 			for i := 0; i < n; i++ {
 				o := genOp(crng, 100+c*1000+i)
 
@@ -291,6 +340,11 @@ func runConc(seed int64, nclients, nops int, size uint64, out string, shape stri
 				case rep := <-done:
 					ev.rep = rep
 					ev.ret = atomic.AddInt64(&clock, 1)
+					if shape == "staledir" && o.Proc == "mkdir" && rep.Code == 0 && len(rep.H) > 0 {
+						mu.Lock()
+						r.handles[o.Id] = rep.H
+						mu.Unlock()
+					}
 				case <-time.After(WatchdogLimit):
 					ev.hung = true
 					atomic.StoreInt32(&hung, 1)
